@@ -338,6 +338,12 @@ func (k Keeper) ResetMetaDuration(ctx sdk.Context, meta *types.Metadata) {
 		}
 	}
 
+	if expiredHeight < meta.CreatedAt {
+		// no completed shard (yet): nothing to derive a lifetime from; the caller extends the
+		// lifetime when the shard being written completes
+		return
+	}
+
 	newDuration := expiredHeight - meta.CreatedAt
 
 	if meta.Duration != newDuration {
